@@ -172,3 +172,95 @@ func VF_C19_conc_sub_sub()   { c19Conc(0) }
 func VF_C19_conc_sub_pub()   { c19Conc(1) }
 func VF_C19_conc_leave_pub() { c19Conc(2) }
 func VF_C19_conc_pub_pub()   { c19Conc(3) }
+
+// ---------------------------------------------------------------------------
+// VF_C19_history: subscribe / leave / subscribe again on one channel: a publish reaches exactly the
+// connections subscribed at that moment, each once, and the reply counts them.
+func VF_C19_history() {
+	m := hNewDb(2)
+	ch := bs("news")
+	conns := []*vfConn{vfNewConn("A", false), vfNewConn("B", false), vfNewConn("C", false)}
+	cancels := make([]context.CancelFunc, 3)
+	member := []bool{false, false, false}
+	expect := []int{0, 0, 0}
+	bg := context.Background()
+	payload := vfBytes("p", 1, 1)
+	for step := 0; step < 5; step++ {
+		who := vfChoice("who", 3)
+		switch vfChoice("op", 3) {
+		case 0: // subscribe (if not a member)
+			vfAssume(!member[who]) // steps without effect are not explored
+			if !member[who] {
+				ctx, cancel := context.WithCancel(bg)
+				cancels[who] = cancel
+				m.ExecCommand(ctx, [][]byte{bs("subscribe"), ch}, net.Conn(conns[who]))
+				member[who] = true
+			}
+		case 1: // leave (disconnect)
+			vfAssume(member[who])
+			if member[who] {
+				cancels[who]()
+				vfSettle()
+				member[who] = false
+			}
+		case 2: // publish
+			vfAssume(who == 0) // a publish does not depend on "who"
+			n := 0
+			for i := range member {
+				if member[i] {
+					n++
+					expect[i]++
+				}
+			}
+			vfAssert(rvEq(hExec(m, bs("publish"), ch, payload), vInt(int64(n))), "history-publish-count")
+		}
+	}
+	for i, c := range conns {
+		msgs, ok := c19Pushes(c)
+		vfAssert(ok && len(msgs) == expect[i], "history-deliveries")
+		for _, mm := range msgs {
+			vfAssert(isMessage(mm, ch, payload), "history-message-intact")
+		}
+	}
+}
+
+// VF_C19_same_order: two publishers, two subscribers whose connections accept a write only when the
+// harness takes it: whatever the interleaving, both subscribers see the two messages in the same order.
+func c19SameOrderOnce() bool {
+	m := hNewDb(2)
+	ch := bs("news")
+	s1, s2 := vfNewConn("A", true), vfNewConn("B", true)
+	bg := context.Background()
+	m.ExecCommand(bg, [][]byte{bs("subscribe"), ch}, net.Conn(s1))
+	m.ExecCommand(bg, [][]byte{bs("subscribe"), ch}, net.Conn(s2))
+	vfSpawn(func() { hExec(m, bs("publish"), ch, bs("x")) })
+	vfSpawn(func() { hExec(m, bs("publish"), ch, bs("y")) })
+	var o1, o2 [][]byte
+	for len(o1)+len(o2) < 4 {
+		select {
+		case b := <-s1.Out:
+			o1 = append(o1, b)
+		case b := <-s2.Out:
+			o2 = append(o2, b)
+		}
+	}
+	vfSettle()
+	if len(o1) != 2 || len(o2) != 2 {
+		return false
+	}
+	return string(o1[0]) == string(o2[0]) && string(o1[1]) == string(o2[1])
+}
+
+func VF_C19_same_order() {
+	vfOpt("maporder", 1)
+	vfOpt("concurrent", 1) // every scheduler choice at blocking points
+	vfOpt("preempt", 0)
+	if vfIsSymbolic() {
+		vfAssert(c19SameOrderOnce(), "subscribers-see-publishes-in-different-orders")
+		return
+	}
+	// native replay: goroutine scheduling, select and map iteration are random - repeat
+	for try := 0; try < 200; try++ {
+		vfAssert(c19SameOrderOnce(), "subscribers-see-publishes-in-different-orders")
+	}
+}
